@@ -21,9 +21,10 @@ static void *(*bs)(const void *, const void *, size_t, size_t, cmp_t, void *, si
 static unsigned char *arena; static size_t asz = 64 * PG;
 static sigjmp_buf jb; static volatile int armed;
 static void on_segv(int s) { (void)s; if (!armed) _exit(3); armed = 0; siglongjmp(jb, 1); }
+static int time_limit = 600; static void on_alarm(int s) { (void)s; if (!armed) return; armed = 0; siglongjmp(jb, 2); }
 
 static unsigned char *base; static size_t g_n, g_sz; static int ctx_cookie; static const void *g_key;
-static int bad_ptr, bad_ctx, ncmp;
+static int bad_ptr, bad_ctx; static long ncmp;
 static int in_array(const void *p) { const unsigned char *q = p; return q >= base && q < base + g_n * g_sz && (size_t)(q - base) % g_sz == 0; }
 static int cmp_sort(const void *a, const void *b, void *c) {
     ncmp++; if (c != &ctx_cookie) bad_ctx = 1;
@@ -62,7 +63,7 @@ static void do_sort(const unsigned char *keys, size_t n, size_t sz, const char *
     int rc = 0, faulted = 0;
     if (sigsetjmp(jb, 1) == 0) { armed = 1; rc = qs(base, n, sz, cmp_sort, &ctx_cookie, (size_t)-1); armed = 0; } else faulted = 1;
     n_cmp += ncmp;
-    if (verbose) { printf("qsort_s rc=%d fault=%d comparisons=%d keys after:", rc, faulted, ncmp); for (size_t i = 0; i < n; i++) printf(" %d", base[i * sz]); printf("\n"); }
+    if (verbose) { printf("qsort_s rc=%d fault=%d comparisons=%d keys after:", rc, faulted, (int)ncmp); for (size_t i = 0; i < n; i++) printf(" %d", base[i * sz]); printf("\n"); }
     if (faulted) { snprintf(sig, sizeof sig, "C16|qsort_s|access-outside-array|%s", szclass(sz, sb)); report(sig, cs); free(before); return; }
     if (rc != 0) { snprintf(sig, sizeof sig, "C16|qsort_s|fails-on-valid-array|rc%d", rc); report(sig, cs); free(before); return; }
     if (bad_ptr) { snprintf(sig, sizeof sig, "C16|qsort_s|comparator-got-foreign-pointer|%s", szclass(sz, sb)); report(sig, cs); }
@@ -90,13 +91,110 @@ static void do_search(const unsigned char *sorted, size_t n, size_t sz, int key)
     if (sigsetjmp(jb, 1) == 0) { armed = 1; r = bs(keyobj, base, n, sz, cmp_search, &ctx_cookie, (size_t)-1); armed = 0; } else faulted = 1;
     n_cmp += ncmp;
     int exists = 0; for (size_t i = 0; i < n; i++) if (sorted[i] == key) exists = 1;
-    if (verbose) printf("bsearch_s -> %s (index %ld) fault=%d comparisons=%d exists=%d\n", r ? "found" : "NULL", r ? (long)(((unsigned char *)r - base) / (long)sz) : -1L, faulted, ncmp, exists);
+    if (verbose) printf("bsearch_s -> %s (index %ld) fault=%d comparisons=%d exists=%d\n", r ? "found" : "NULL", r ? (long)(((unsigned char *)r - base) / (long)sz) : -1L, faulted, (int)ncmp, exists);
     if (faulted) { snprintf(sig, sizeof sig, "C16|bsearch_s|access-outside-array|%s", szclass(sz, sb)); report(sig, cs); return; }
     if (bad_ptr) { snprintf(sig, sizeof sig, "C16|bsearch_s|comparator-got-foreign-pointer|%s", szclass(sz, sb)); report(sig, cs); }
     if (bad_ctx) { snprintf(sig, sizeof sig, "C16|bsearch_s|context-not-passed|%s", szclass(sz, sb)); report(sig, cs); }
     if (exists && !r) { snprintf(sig, sizeof sig, "C16|bsearch_s|present-key-not-found|%s", szclass(sz, sb)); report(sig, cs); }
     if (!exists && r && n) { snprintf(sig, sizeof sig, "C16|bsearch_s|absent-key-found|%s", szclass(sz, sb)); report(sig, cs); }
     if (r && n && (!in_array(r) || *(unsigned char *)r != key)) { snprintf(sig, sizeof sig, "C16|bsearch_s|returned-non-matching-or-outside|%s", szclass(sz, sb)); report(sig, cs); }
+}
+
+/* ---- nested use: the comparator of the outer sort itself sorts another array (other element size) before answering */
+static size_t in_sz; static unsigned char inner[5 * 600]; static int inner_bad, nest_every;
+static int cmp_inner(const void *a, const void *b, void *c) { if (c != inner) inner_bad |= 2; return (int)*(const unsigned char *)a - (int)*(const unsigned char *)b; }
+static int cmp_nest(const void *a, const void *b, void *c) {
+    ncmp++; if (c != &ctx_cookie) bad_ctx = 1;
+    if (!in_array(a) || !in_array(b)) { bad_ptr = 1; return 0; }
+    if (nest_every == 1 || ncmp == nest_every) {
+        static const unsigned char IK[5] = { 4, 1, 3, 0, 2 };
+        for (int i = 0; i < 5; i++) memset(inner + i * in_sz, IK[i], in_sz);
+        if (qs(inner, 5, in_sz, cmp_inner, inner, (size_t)-1) != 0) inner_bad |= 1;
+        for (int i = 0; i < 5; i++) for (size_t k = 0; k < in_sz; k++) if (inner[i * in_sz + k] != i) inner_bad |= 4;
+    }
+    return (int)*(const unsigned char *)a - (int)*(const unsigned char *)b;
+}
+static void do_nested(const unsigned char *keys, size_t n, size_t sz, size_t isz, int every) {
+    char cs[400], hx[420] = "", sig[160];
+    for (size_t i = 0; i < n && i < 200; i++) sprintf(hx + 2 * i, "%02x", keys[i]);
+    snprintf(cs, sizeof cs, "nested %zu %zu %s %zu %d", sz, n, n ? hx : "-", isz, every);
+    size_t bytes = n * sz; base = arena + asz - PG - bytes; g_n = n; g_sz = sz; in_sz = isz; nest_every = every; inner_bad = 0;
+    for (size_t i = 0; i < n; i++) { unsigned char *e = base + i * sz; e[0] = keys[i]; for (size_t k = 1; k < sz; k++) e[k] = (unsigned char)(i * 7 + k * 13 + 1); }
+    unsigned char *before = malloc(bytes + 1); memcpy(before, base, bytes);
+    bad_ptr = bad_ctx = ncmp = 0; n_arrays++;
+    int rc = 0, faulted = 0;
+    if (sigsetjmp(jb, 1) == 0) { armed = 1; rc = qs(base, n, sz, cmp_nest, &ctx_cookie, (size_t)-1); armed = 0; } else faulted = 1;
+    n_cmp += ncmp;
+    const char *rel = sz == isz ? "same-size" : sz < isz ? "inner-larger" : "inner-smaller";
+    if (verbose) { printf("qsort_s (comparator sorts 5 x %zu bytes %s) rc=%d fault=%d comparisons=%d inner_bad=%d keys after:", isz, every == 1 ? "in every call" : "in one call", rc, faulted, (int)ncmp, inner_bad); for (size_t i = 0; i < n; i++) printf(" %d", base[i * sz]); printf("\n"); }
+    if (faulted) { snprintf(sig, sizeof sig, "C16|qsort_s|nested:access-outside-array|%s", rel); report(sig, cs); free(before); return; }
+    if (rc != 0) { snprintf(sig, sizeof sig, "C16|qsort_s|nested:fails-on-valid-array|rc%d", rc); report(sig, cs); free(before); return; }
+    if (inner_bad) { snprintf(sig, sizeof sig, "C16|qsort_s|nested:inner-sort-wrong|%s", rel); report(sig, cs); }
+    if (bad_ptr) { snprintf(sig, sizeof sig, "C16|qsort_s|nested:comparator-got-foreign-pointer|%s", rel); report(sig, cs); }
+    if (bad_ctx) { snprintf(sig, sizeof sig, "C16|qsort_s|nested:context-not-passed|%s", rel); report(sig, cs); }
+    for (size_t i = 1; i < n; i++) if (base[(i - 1) * sz] > base[i * sz]) { snprintf(sig, sizeof sig, "C16|qsort_s|nested:not-sorted|%s", rel); report(sig, cs); break; }
+    unsigned char *used = calloc(n + 1, 1); int perm = 1;
+    for (size_t i = 0; i < n && perm; i++) { int f = 0; for (size_t j = 0; j < n; j++) if (!used[j] && !memcmp(base + i * sz, before + j * sz, sz)) { used[j] = 1; f = 1; break; } if (!f) perm = 0; }
+    if (!perm) { snprintf(sig, sizeof sig, "C16|qsort_s|nested:not-a-permutation|%s", rel); report(sig, cs); }
+    free(used); free(before);
+}
+
+/* ---- large arrays: element = key byte + 32-bit original index (5 bytes); families chosen by the shape of the Leonardo heap */
+static unsigned char big_key(int fam, size_t i, size_t n, size_t p) {
+    switch (fam) {
+    case 0: return (unsigned char)(i * 250 / n);                 /* ascending */
+    case 1: return (unsigned char)(249 - i * 250 / n);           /* descending */
+    case 2: return 7;                                            /* all equal */
+    case 3: return i == p ? 0 : 1;                               /* one minimum at p */
+    case 4: return i == p ? 2 : 1;                               /* one maximum at p */
+    case 5: return (unsigned char)(i & 1);                       /* two values */
+    case 6: return (unsigned char)((i * 2654435761u) >> 24);     /* scrambled */
+    default: return (unsigned char)(i < n / 2 ? i * 500 / n : (n - 1 - i) * 500 / n);   /* organ pipe */
+    }
+}
+static int cmp_big(const void *a, const void *b, void *c) {
+    ncmp++; if (c != &ctx_cookie) bad_ctx = 1;
+    if (!in_array(a) || !in_array(b)) { bad_ptr = 1; return 0; }
+    return (int)*(const unsigned char *)a - (int)*(const unsigned char *)b;
+}
+static void do_big_child(size_t n, int fam, size_t p) {
+    static const char *FN[] = { "ascending", "descending", "all-equal", "one-minimum", "one-maximum", "two-value", "scrambled", "organ-pipe" };
+    char cs[200], sig[160]; snprintf(cs, sizeof cs, "big %zu %d %zu", n, fam, p);
+    size_t bytes = n * 5, span = (bytes + PG - 1) / PG * PG;
+    unsigned char *m = mmap(NULL, span + 2 * PG, PROT_READ | PROT_WRITE, MAP_PRIVATE | MAP_ANONYMOUS, -1, 0); if (m == MAP_FAILED) { fprintf(stderr, "mmap failed\n"); exit(2); }
+    mprotect(m, PG, PROT_NONE); mprotect(m + PG + span, PG, PROT_NONE);
+    base = m + PG + span - bytes; g_n = n; g_sz = 5; memset(m + PG, 0xEE, span - bytes);
+    for (size_t i = 0; i < n; i++) { unsigned char *e = base + i * 5; e[0] = big_key(fam, i, n, p); e[1] = i; e[2] = i >> 8; e[3] = i >> 16; e[4] = i >> 24; }
+    bad_ptr = bad_ctx = 0; long long nc0 = 0; ncmp = 0; n_arrays++;
+    int rc = 0, faulted = 0;
+    int how = sigsetjmp(jb, 1);
+    if (how == 0) { armed = 1; alarm(time_limit); rc = qs(base, n, 5, cmp_big, &ctx_cookie, (size_t)-1); armed = 0; alarm(0); } else faulted = how;
+    (void)nc0; n_cmp += ncmp;
+    if (verbose) printf("qsort_s nmemb=%zu family=%s p=%zu rc=%d fault=%d\n", n, FN[fam], p, rc, faulted);
+    if (faulted == 2) { snprintf(sig, sizeof sig, "C16|qsort_s|large:does-not-return|%s", FN[fam]); report(sig, cs); munmap(m, span + 2 * PG); return; }   /* the slowest family takes well under a minute at these sizes; the limit is 10 times that */
+    if (faulted) { snprintf(sig, sizeof sig, "C16|qsort_s|large:access-outside-array|%s", FN[fam]); report(sig, cs); munmap(m, span + 2 * PG); return; }
+    if (rc != 0) { snprintf(sig, sizeof sig, "C16|qsort_s|large:fails-on-valid-array|rc%d", rc); report(sig, cs); munmap(m, span + 2 * PG); return; }
+    if (bad_ptr) { snprintf(sig, sizeof sig, "C16|qsort_s|large:comparator-got-foreign-pointer|%s", FN[fam]); report(sig, cs); }
+    if (bad_ctx) { snprintf(sig, sizeof sig, "C16|qsort_s|large:context-not-passed|%s", FN[fam]); report(sig, cs); }
+    for (size_t i = 1; i < n; i++) if (base[(i - 1) * 5] > base[i * 5]) { snprintf(sig, sizeof sig, "C16|qsort_s|large:not-sorted|%s", FN[fam]); report(sig, cs); break; }
+    unsigned char *seen = calloc(n / 8 + 1, 1); int perm = 1;
+    for (size_t i = 0; i < n; i++) { unsigned char *e = base + i * 5; size_t o = e[1] | (size_t)e[2] << 8 | (size_t)e[3] << 16 | (size_t)e[4] << 24; if (o >= n || (seen[o / 8] >> (o % 8) & 1) || e[0] != big_key(fam, o, n, p)) { perm = 0; break; } seen[o / 8] |= 1 << (o % 8); }
+    if (!perm) { snprintf(sig, sizeof sig, "C16|qsort_s|large:not-a-permutation|%s", FN[fam]); report(sig, cs); }
+    for (size_t k = 0; k < span - bytes; k++) if (m[PG + k] != 0xEE) { snprintf(sig, sizeof sig, "C16|qsort_s|large:write-before-array|%s", FN[fam]); report(sig, cs); break; }
+    free(seen); munmap(m, span + 2 * PG);
+}
+/* one large sort per forked child: a call that corrupts its own stack ends the child (abort, fault outside the armed window), which is a verdict, not a harness failure */
+#include <sys/wait.h>
+static void do_big(size_t n, int fam, size_t p) {
+    static const char *FN[] = { "ascending", "descending", "all-equal", "one-minimum", "one-maximum", "two-value", "scrambled", "organ-pipe" };
+    int pf[2]; if (pipe(pf)) exit(2);
+    fflush(stdout); pid_t pid = fork(); if (pid < 0) exit(2);
+    if (pid == 0) { close(pf[0]); nsig = 0; do_big_child(n, fam, p); fflush(stdout); if (nsig) write(pf[1], sigs[0], strlen(sigs[0])); _exit(0); }
+    close(pf[1]); char got[200] = ""; ssize_t r = read(pf[0], got, sizeof got - 1); if (r > 0) got[r] = 0; close(pf[0]);
+    int st = 0; waitpid(pid, &st, 0); n_arrays++;
+    char cs[200], sig[200]; snprintf(cs, sizeof cs, "big %zu %d %zu", n, fam, p);
+    if (got[0]) report(got, cs);
+    else if (!WIFEXITED(st) || WEXITSTATUS(st) != 0) { snprintf(sig, sizeof sig, "C16|qsort_s|large:call-ends-the-process|%s", FN[fam]); if (verbose) printf("child status %#x\n", st); report(sig, cs); }
 }
 static int cmp_uc(const void *a, const void *b) { return (int)*(const unsigned char *)a - (int)*(const unsigned char *)b; }
 
@@ -108,15 +206,23 @@ int main(int argc, char **argv) {
     if (!qs || !bs) { fprintf(stderr, "missing symbols\n"); return 2; }
     arena = mmap(NULL, asz, PROT_READ | PROT_WRITE, MAP_PRIVATE | MAP_ANONYMOUS, -1, 0);
     mprotect(arena, PG, PROT_NONE); mprotect(arena + asz - PG, PG, PROT_NONE);
-    signal(SIGSEGV, on_segv);
+    signal(SIGSEGV, on_segv); signal(SIGALRM, on_alarm); if (getenv("C16_TIME_LIMIT")) time_limit = atoi(getenv("C16_TIME_LIMIT"));
     if (argc >= 6 && !strcmp(argv[1], "replay")) {
         verbose = 1; size_t sz = atol(argv[3]), n = atol(argv[4]); unsigned char k[256];
-        for (size_t i = 0; i < n; i++) { unsigned v = 0; sscanf(argv[5] + 2 * i, "%2x", &v); k[i] = v; }
-        if (!strcmp(argv[2], "sort")) do_sort(k, n, sz, "replay"); else do_search(k, n, sz, atoi(argv[6]));
+        if (strcmp(argv[2], "big")) for (size_t i = 0; i < n && i < 256; i++) { unsigned v = 0; sscanf(argv[5] + 2 * i, "%2x", &v); k[i] = v; }
+        if (!strcmp(argv[2], "big")) do_big(atol(argv[3]), atoi(argv[4]), atol(argv[5]));
+        else if (!strcmp(argv[2], "nested")) do_nested(k, n, sz, atol(argv[6]), atoi(argv[7]));
+        else if (!strcmp(argv[2], "sort")) do_sort(k, n, sz, "replay"); else do_search(k, n, sz, atoi(argv[6]));
         if (nsig) { printf("VERDICT violation %s\n", sigs[0]); return 1; }
         printf("VERDICT ok\n"); return 0;
     }
     if (argc < 5) return 2;
+    if (!strcmp(argv[1], "big")) {
+        do_big(atol(argv[2]), atoi(argv[3]), atol(argv[4]));
+        for (int i = 0; i < nsig; i++) printf("{\"t\":\"viol\",\"sig\":\"%s\",\"n\":%ld,\"case\":\"%s\"}\n", sigs[i], sigcnt[i], sigcase[i]);
+        printf("{\"t\":\"stat\",\"arrays_sorted\":%ld,\"searches\":%ld,\"comparisons\":%ld,\"violating\":%ld}\n", n_arrays, n_searches, n_cmp, n_viol);
+        return 0;
+    }
     int N = atoi(argv[1]), perms = atoi(argv[2]); long shard = atol(argv[3]), nsh = atol(argv[4]);
     static const size_t SZ[] = { 1, 2, 3, 4, 7, 8, 12, 16, 24, 255, 256, 257, 300, 513 };
     int nszs = sizeof SZ / sizeof SZ[0];
@@ -133,6 +239,16 @@ int main(int argc, char **argv) {
             }
         }
     }
+    /* nested use: all key arrays with nmemb 3..min(N,7), outer x inner element sizes, inner sort in every comparison or only in the k-th */
+    { static const size_t PAIRS[][2] = { {4, 8}, {8, 4}, {4, 257}, {257, 1}, {8, 8}, {16, 300} };
+      for (int n = 3; n <= (N < 7 ? N : 7); n++) {
+        long cnt = 1; for (int i = 0; i < n; i++) cnt *= 3;
+        for (long c = 0; c < cnt; c++) {
+            if ((idx++ % nsh) != shard) continue;
+            long t = c; for (int i = 0; i < n; i++) { k[i] = t % 3; t /= 3; }
+            for (int pi = 0; pi < 6; pi++) { do_nested(k, n, PAIRS[pi][0], PAIRS[pi][1], 1); for (int ev = 2; ev <= 4; ev++) do_nested(k, n, PAIRS[pi][0], PAIRS[pi][1], ev); }
+        }
+      } }
     /* structured families up to 200 */
     static const size_t SZ2[] = { 4, 8, 257 };
     for (int n = 8; n <= 200; n++) {
